@@ -52,7 +52,17 @@ def _entry_rules(rep: Report, cls, cb_attrs: dict, flag: str = "self.is_stopped"
                 rep.ob("R3-flag-first", m, c, ok,
                        f"`{flag} = True` does not precede the terminal delivery on every path: a re-entrant "
                        f"emission from inside the callback (or a second terminal) would be delivered")
-        rep.require(n_deliv > 0 or mname == "fail", f"{m.ref} delivers nothing (anchor changed shape)")
+        if mname != "fail":
+            rep.ob("R3-kind", m, f"{mname}: delivers through its core", n_deliv > 0,
+                   f"`{cls.name}.{mname}` delivers nothing: every {slot} notification is dropped")
+        else:
+            deliv = [s for s in sites(m) if isinstance(s.node, ast.Call) and isinstance(s.node.func, ast.Attribute)
+                     and dotted(s.node.func.value) == "self" and s.node.func.attr in deliver]
+            for r in sites(m):
+                if isinstance(r.node, ast.Return) and isinstance(r.node.value, ast.Constant) and r.node.value.value is True:
+                    rep.ob("R3-kind", m, "fail: reports the error as delivered only after delivering it", any(dominates(d_, r) for d_ in deliv),
+                           f"`{cls.name}.fail` returns True (\"delivered\") on a path on which it delivers nothing: the exception is swallowed — "
+                           f"the subscriber never sees it and the caller does not re-raise it")
     fl = cls.child("fail")
     if fl is not None:
         tests = [s for s in sites(fl) if isinstance(s.node, ast.If) and any(u(x) == flag for x in ast.walk(s.node.test))]
